@@ -1,6 +1,7 @@
 import ZapVerif.Model.SubEnc
 import ZapVerif.Proofs.Num
 import ZapVerif.Proofs.EntryWF
+import ZapVerif.Props.C15
 /-! lemmas about the built-in sub-encoders (`Model/SubEnc.lean`): `time.Duration.String` — structure of `fmtFrac`, a
     `time.ParseDuration`-style reader and the proof that it reads every emitted text back; caller texts. -/
 namespace ZapVerif.SubEnc
@@ -449,5 +450,154 @@ theorem durParse_durString (d : Int) : durParse (durString d) = some d := by
       · rename_i heq; injection heq with h1 _; exact absurd h1 h45
       · rename_i heq; injection heq with h1 _; exact absurd h1 h43
       · simp only [hb]; simp; omega
+
+/-! ### levels -/
+
+/-- every value of `zapcore.Level` (int8) -/
+def allLevels : List Int := (List.range 256).map fun (n : Nat) => (n : Int) - 128
+
+/-- colour of a level: `_levelToColor[l]`, else `_unknownLevelColor` -/
+def colorOf (l : Int) : Nat := (Gen.levelToColor.lookup l).getD Gen.unknownLevelColor
+
+theorem lookup_map_snd {α β γ : Type} [BEq α] (l : List (α × β)) (g : α × β → γ) (k : α) :
+    (l.map fun x => (x.1, g x)).lookup k = (l.find? fun x => k == x.1).map g := by
+  induction l with
+  | nil => rfl
+  | cons x xs ih =>
+    simp only [List.map_cons, List.lookup_cons, List.find?_cons]
+    cases h : k == x.1 <;> simp [ih]
+
+theorem colorLevel_eq (text : Int → Bytes) (l : Int) : colorLevel text l = colorAdd (colorOf l) (text l) := by
+  unfold colorLevel colorMap colorOf
+  have h1 := lookup_map_snd Gen.levelToColor (fun lc => colorAdd lc.2 (text lc.1)) l
+  have h2 := lookup_map_snd Gen.levelToColor (fun lc => lc.2) l
+  have e2 : (Gen.levelToColor.map fun x => (x.1, x.2)) = Gen.levelToColor := by simp
+  rw [e2] at h2
+  rw [h1, h2]
+  cases hf : Gen.levelToColor.find? (fun x => l == x.1) with
+  | none => simp
+  | some x =>
+    have := List.find?_some hf
+    simp only [beq_iff_eq] at this
+    simp [this]
+
+theorem color_pieces : Gen.colorAddPre = [27, 91] ∧ Gen.colorAddMid = [109] ∧ Gen.colorAddSuf = [27, 91, 48, 109] := by
+  decide
+
+/-- the colour number and the coloured text are both recoverable from `Color.Add`'s output -/
+theorem colorAdd_inj (c1 c2 : Nat) (s1 s2 : Bytes) (h : colorAdd c1 s1 = colorAdd c2 s2) : c1 = c2 ∧ s1 = s2 := by
+  obtain ⟨hp, hm, hs⟩ := color_pieces
+  unfold colorAdd at h
+  rw [hp, hm, hs] at h
+  simp only [List.append_assoc, List.cons_append, List.nil_append, List.cons.injEq, true_and] at h
+  have nd : ∀ (x : Bytes) (c : UInt8) (r : Bytes), (109 :: x) = c :: r → isDig c = false := by
+    intro x c r e; injection e with e1 _; rw [← e1]; decide
+  have a1 := spanDig_app (fmtNat c1) (109 :: (s1 ++ [27, 91, 48, 109])) (fmtNat_dig c1) (nd _)
+  have a2 := spanDig_app (fmtNat c2) (109 :: (s2 ++ [27, 91, 48, 109])) (fmtNat_dig c2) (nd _)
+  rw [h] at a1
+  rw [a1] at a2
+  injection a2 with e1 e2
+  injection e2 with _ e3
+  refine ⟨?_, List.append_cancel_right e3⟩
+  have := congrArg natOf e1
+  simpa [natOf_fmtNat] using this
+
+theorem unknown_level_text : ∀ l ∈ allLevels, l ∉ Level.validLevels →
+    Level.stringOf l = litStr "Level(" ++ fmtInt l ++ [41] ∧ Level.capitalOf l = litStr "LEVEL(" ++ fmtInt l ++ [41] := by
+  decide +kernel
+
+theorem known_level_heads : ∀ l ∈ Level.validLevels,
+    (Level.stringOf l).head? ≠ some 76 ∧ (Level.capitalOf l).head? ≠ some 76 ∧ Level.stringOf l ≠ [] ∧ Level.capitalOf l ≠ [] := by
+  decide +kernel
+
+theorem known_names_inj : ∀ a ∈ Level.validLevels, ∀ b ∈ Level.validLevels,
+    (Level.stringOf a = Level.stringOf b → a = b) ∧ (Level.capitalOf a = Level.capitalOf b → a = b) := by
+  decide +kernel
+
+theorem fmtInt_inj (a b : Int) (h : fmtInt a = fmtInt b) : a = b := by
+  have := congrArg intOf h
+  simpa [intOf_fmtInt] using this
+
+/-- distinct levels have distinct texts — all 256 values, known names and `Level(n)` fall-backs alike -/
+theorem plain_text_inj : ∀ a ∈ allLevels, ∀ b ∈ allLevels,
+    (Level.stringOf a = Level.stringOf b → a = b) ∧ (Level.capitalOf a = Level.capitalOf b → a = b) := by
+  intro a ha b hb
+  have hL : ∀ x : Bytes, (litStr "Level(" ++ x ++ [41]).head? = some 76 := by
+    intro x
+    have : litStr "Level(" = [76, 101, 118, 101, 108, 40] := by decide +kernel
+    rw [this]; rfl
+  have hC : ∀ x : Bytes, (litStr "LEVEL(" ++ x ++ [41]).head? = some 76 := by
+    intro x
+    have : litStr "LEVEL(" = [76, 69, 86, 69, 76, 40] := by decide +kernel
+    rw [this]; rfl
+  by_cases va : a ∈ Level.validLevels <;> by_cases vb : b ∈ Level.validLevels
+  · exact known_names_inj a va b vb
+  · obtain ⟨h1, h2, _, _⟩ := known_level_heads a va
+    obtain ⟨u1, u2⟩ := unknown_level_text b hb vb
+    refine ⟨fun e => ?_, fun e => ?_⟩
+    · rw [e, u1] at h1; exact absurd (hL _) h1
+    · rw [e, u2] at h2; exact absurd (hC _) h2
+  · obtain ⟨h1, h2, _, _⟩ := known_level_heads b vb
+    obtain ⟨u1, u2⟩ := unknown_level_text a ha va
+    refine ⟨fun e => ?_, fun e => ?_⟩
+    · rw [← e, u1] at h1; exact absurd (hL _) h1
+    · rw [← e, u2] at h2; exact absurd (hC _) h2
+  · obtain ⟨a1, a2⟩ := unknown_level_text a ha va
+    obtain ⟨b1, b2⟩ := unknown_level_text b hb vb
+    refine ⟨fun e => ?_, fun e => ?_⟩
+    · rw [a1, b1] at e
+      simp only [List.append_assoc] at e
+      exact fmtInt_inj a b (List.append_cancel_right (List.append_cancel_left e))
+    · rw [a2, b2] at e
+      simp only [List.append_assoc] at e
+      exact fmtInt_inj a b (List.append_cancel_right (List.append_cancel_left e))
+
+theorem levelText_inj (k : LvlEnc) : ∀ a ∈ allLevels, ∀ b ∈ allLevels, levelText k a = levelText k b → a = b := by
+  intro a ha b hb h
+  have hp := plain_text_inj a ha b hb
+  cases k with
+  | lower => exact hp.1 h
+  | capital => exact hp.2 h
+  | color =>
+    simp only [levelText, colorLevel_eq] at h
+    exact hp.1 (colorAdd_inj _ _ _ _ h).2
+  | capitalColor =>
+    simp only [levelText, colorLevel_eq] at h
+    exact hp.2 (colorAdd_inj _ _ _ _ h).2
+
+/-- the documented colours: debug magenta (35), info blue (34), warn yellow (33), everything else red (31) -/
+theorem colorOf_documented : ∀ l ∈ allLevels,
+    colorOf l = (if l = -1 then 35 else if l = 0 then 34 else if l = 1 then 33 else 31) := by
+  decide +kernel
+
+/-! ### callers -/
+
+theorem fmtNat_no_colon (n : Nat) : (58 : UInt8) ∉ fmtNat n := by
+  intro h
+  have := fmtNat_dig n 58 h
+  exact absurd this (by decide)
+
+theorem fmtInt_no_colon (i : Int) : (58 : UInt8) ∉ fmtInt i := by
+  unfold fmtInt
+  split
+  · intro h
+    simp only [List.mem_cons] at h
+    rcases h with h | h
+    · exact absurd h (by decide)
+    · exact fmtNat_no_colon _ h
+  · exact fmtNat_no_colon _
+
+/-- reading a caller text: everything before the LAST ':' is the file, the decimal after it the line -/
+def callerDecode (t : Bytes) : Option (Bytes × Int) :=
+  match Callers.lastIndexOf 58 t with
+  | some i => some (t.take i, intOf (t.drop (i + 1)))
+  | none => none
+
+theorem callerDecode_join (file : Bytes) (line : Int) : callerDecode (file ++ 58 :: fmtInt line) = some (file, line) := by
+  unfold callerDecode
+  rw [C15.lastIndexOf_sep 58 file (fmtInt line) (fmtInt_no_colon line)]
+  have e : file ++ 58 :: fmtInt line = (file ++ [58]) ++ fmtInt line := by simp
+  simp only [List.take_left' rfl]
+  rw [e, List.drop_left' (by simp), intOf_fmtInt]
 
 end ZapVerif.SubEnc
